@@ -21,6 +21,11 @@ THEOREMS = [
     "PorepyVerif.C37.gaussJordan_correct",
     "PorepyVerif.C37.invertDiagonalBlocks_correct",
     "PorepyVerif.C37.invertPermuted_correct",
+    "PorepyVerif.C37.invertDiagonalBlocks_correct_checked",
+    "PorepyVerif.C37.invertPermuted_correct_checked",
+    "PorepyVerif.C37.permSearch_invert_correct",
+    "PorepyVerif.C37.invertDiagonalBlocksOpt_spec",
+    "PorepyVerif.C37.blockDiagIndex_rect_square",
     "PorepyVerif.C37.invertAll_correct",
     "PorepyVerif.C37.components_closed",
     "PorepyVerif.C37.components_minimal",
@@ -36,7 +41,11 @@ TOL = 1e-9
 RULE = ("a case = 1-8 diagonal blocks of sizes 1-6 (1x1 blocks frequent; thorough: up to 14 blocks); valid cases are STRATIFIED: the 16 "
         "combinations of (csr|csc storage of the block-diagonal matrix) x (uniform|non-uniform block sizes) x (all blocks full|some zero "
         "entries) x (all blocks symmetric|some block non-symmetric) are visited cyclically, every second round in canonical storage, so "
-        "each combination occurs at least twice (once canonically) in every quick run; block values = row-wise strictly "
+        "each combination occurs at least twice (once canonically) in every quick run; every 7th case is a CORNER stratum (cyclically: "
+        "1x1 matrix, all blocks 1x1, values scaled by 2^20 / 2^-20, identity / reversed / symmetric permutation, zero sizes at both "
+        "ends, unsorted indices in both matrices, duplicate stored entries in both matrices, repeated call on the same objects) and "
+        "every 13th case a neighbouring ENTRY POINT (method=None, unknown method, coo / lil input, two-argument block_diag_index with "
+        "and without zero sizes); block values = row-wise strictly "
         "diagonally dominant small integers or dyadics (so binary64 holds them exactly and the exact inverse has moderate rationals), "
         "off-diagonal entries zero with probability 0/0.3/0.6/0.9 (blocks may split into finer components), rows of a block optionally "
         "shuffled (zero diagonal entries, pivoting needed); the block-diagonal matrix is stored as csr or csc, optionally with unsorted "
@@ -76,8 +85,14 @@ EXPLANATION = (
     "classes are exactly the connected components of the bipartite pattern graph), components_partition (row_perm is a permutation; "
     "col_perm is one when no row is all zero; the hypothesis is necessary, with an example of a duplicate in col_perm for a zero row i and "
     "a zero column j != i), permSearch_blocks_square (meaning of the returned triple; every non-zero lies inside a reported square block). "
-    "NOT proved: that the triple returned by permSearch satisfies the positional block-diagonality hypothesis of invertPermuted_correct "
-    "(it is proved in membership form only), and completeness of the two pipelines (nonsingular input implies some). "
+    "The hypotheses of the two pipeline theorems are packaged as decidable input conditions (blockHyp, pipelineHyp; theorems "
+    "invertDiagonalBlocks_correct_checked, invertPermuted_correct_checked, permSearch_invert_correct) which the driver evaluates on every "
+    "case (answer field hyp_ok; false on a nonsingular block-diagonal case counts as a disagreement). Neighbouring entry points: "
+    "invertDiagonalBlocksOpt_spec (method None/numba/python vs unknown method = ValueError, non csr/csc input = TypeError) and "
+    "blockDiagIndex_rect_square (two-argument block_diag_index). NOT proved for all inputs: that the triple returned by permSearch always "
+    "satisfies pipelineHyp (proved in membership form, permSearch_blocks_square; checked per case by the driver), and completeness of "
+    "the two pipelines (nonsingular input implies some). The oracle additionally checks that no inverter modifies its arguments and that "
+    "a repeated call gives the same result. "
     "Correspondence: csr layout (format, shape, indices, indptr) exact, inverse values with "
     "tolerance 1e-9 for the python and numba paths, the permutation as a partition (sorted blocks), the permuted inverse with the computed "
     "and with the generator's permutation, error kinds for singular / non-square / empty input. The oracle checks the property on the real "
@@ -88,6 +103,7 @@ ASSUMPTIONS = ["block values are exactly representable in binary64 and well cond
                "singular malformed blocks are singular in a way LAPACK detects exactly (zero row, zero column, duplicated row)"]
 
 _warm = {"done": False}
+_flags = []  # side-effect observations of the current case (inputs modified, repeated call differs); read by the oracle
 
 
 def _mo():
@@ -301,7 +317,85 @@ def _with_zero_sizes(rng, sizes):
     return out
 
 
+CORNERS = ["n1", "all_1x1", "scale_up", "scale_down", "perm_identity", "perm_reverse", "perm_symmetric", "zero_sizes_ends",
+           "unsorted", "dups", "repeat"]
+EXTRAS = ["method_none", "bdi", "method_unknown", "format_coo", "bdi_zero", "method_unknown_format_lil"]
+_calls = {"n": 0, "corner": 0, "extra": 0}
+
+
+def _gen_corner(rng, tier, name):
+    """valid cases for corner classes that the 16 strata do not single out (explicit strata, visited cyclically)"""
+    import random
+    if name == "n1":
+        sizes, blocks = [1], [[[Fraction(rng.choice([-3, 2, 5]), rng.choice([1, 4]))]]]
+    elif name == "all_1x1":
+        nb = rng.randint(2, 8)
+        sizes, blocks = [1] * nb, [[[Fraction(rng.choice([-4, -1, 1, 2, 3]), rng.choice([1, 2]))]] for _ in range(nb)]
+    else:
+        sizes, blocks = _stratified_blocks(rng, tier, rng.random() < 0.5, rng.random() < 0.5, False)
+    if name in ("scale_up", "scale_down"):
+        f = Fraction(2) ** (20 if name == "scale_up" else -20)
+        blocks = [[[x * f for x in r] for r in b] for b in blocks]
+    n = sum(sizes)
+    pr, pc = list(range(n)), list(range(n))
+    if name == "perm_reverse":
+        pr, pc = pr[::-1], pc[::-1]
+    elif name == "perm_symmetric":
+        rng.shuffle(pr)
+        pc = list(pr)
+    elif name != "perm_identity":
+        rng.shuffle(pr)
+        rng.shuffle(pc)
+    var = {}
+    if name == "unsorted":
+        var = {"shuffle_bd": rng.randrange(10**6), "shuffle_m": rng.randrange(10**6)}
+    if name == "dups":
+        nz = []
+        o = 0
+        for b in blocks:
+            nz += [(o + i, o + j, b[i][j]) for i in range(len(b)) for j in range(len(b)) if b[i][j] != 0]
+            o += len(b)
+        picks = rng.sample(nz, min(len(nz), 3))
+        var = {"dups_bd": [[i, j, frac(x / 2)] for i, j, x in picks], "dups_m": [[pr[i], pc[j], frac(x + 1)] for i, j, x in picks]}
+    sizes_arg = [0, 0] + list(sizes) + [0] if name == "zero_sizes_ends" else list(sizes)
+    case = _assemble(blocks, sizes_arg, pr, pc, rng.choice(["csr", "csc"]), rng.choice(["csr", "csc"]), "valid", variations=var)
+    case["corner"] = name
+    if name == "repeat":
+        case["repeat"] = True
+    return case
+
+
+def _gen_extra(rng, tier, name):
+    """neighbouring entry points: option handling of invert_diagonal_blocks, two-argument block_diag_index"""
+    if name.startswith("bdi"):
+        k = rng.randint(1, 5)
+        lo = 0 if name == "bdi_zero" else 1
+        m = [rng.randint(lo, 4) for _ in range(k)]
+        nn = [rng.randint(lo, 4) for _ in range(k)]
+        if rng.random() < 0.3:
+            nn = list(m)
+        return {"kind": "bdi", "sub": name, "bm": m, "bn": nn}
+    sizes, blocks = _stratified_blocks(rng, tier, rng.random() < 0.5, True, False)
+    n = sum(sizes)
+    case = _assemble(blocks, list(sizes), list(range(n)), list(range(n)), "csr", "csr", "options")
+    case["sub"] = name
+    case["method"] = {"method_none": None, "method_unknown": "cython", "format_coo": rng.choice([None, "python", "numba"]),
+                      "method_unknown_format_lil": "scipy"}[name]
+    case["as_format"] = {"format_coo": "coo", "method_unknown_format_lil": "lil"}.get(name, rng.choice(["csr", "csc"]))
+    return case
+
+
 def gen_case(rng, tier):
+    idx = _calls["n"]
+    _calls["n"] += 1
+    if idx % 7 == 3:
+        name = CORNERS[_calls["corner"] % len(CORNERS)]
+        _calls["corner"] += 1
+        return _gen_corner(rng, tier, name)
+    if idx % 13 == 6:
+        name = EXTRAS[_calls["extra"] % len(EXTRAS)]
+        _calls["extra"] += 1
+        return _gen_extra(rng, tier, name)
     u = rng.random()
     kind = "valid" if u < 0.84 else "malformed" if u < 0.94 else "dup_entries" if u < 0.98 else "stored_zeros_offblock"
     if kind == "malformed":
@@ -409,13 +503,31 @@ def _fl(x):
     return frac(float(x))
 
 
+def _snapshot(A):
+    return (A.format, A.shape, A.data.copy(), A.indices.copy(), A.indptr.copy())
+
+
+def _same(A, snap):
+    return (A.format == snap[0] and A.shape == snap[1] and np.array_equal(A.data, snap[2]) and np.array_equal(A.indices, snap[3])
+            and np.array_equal(A.indptr, snap[4]))
+
+
 def _blockinv(case, method):
     mo = _mo()
     A = _to_scipy(case["bd"])
+    snap = _snapshot(A)
+    sz = np.array(case["sizes_arg"], dtype=int)
     try:
-        X = mo.invert_diagonal_blocks(A, np.array(case["sizes_arg"], dtype=int), method=method)
+        X = mo.invert_diagonal_blocks(A, sz, method=method)
+        if case.get("repeat"):  # repeated operation on the same objects: same answer
+            X2 = mo.invert_diagonal_blocks(A, sz, method=method)
+            if not (np.array_equal(X.data, X2.data) and np.array_equal(X.indices, X2.indices) and np.array_equal(X.indptr, X2.indptr)):
+                _flags.append(f"second call of invert_diagonal_blocks(method={method}) on the same matrix gave a different result")
     except Exception as e:
         return err_kind(e), None
+    finally:
+        if not _same(A, snap) or not np.array_equal(sz, np.array(case["sizes_arg"], dtype=int)):
+            _flags.append(f"invert_diagonal_blocks(method={method}) modified its input")
     return {"fmt": X.format, "shape": [int(s) for s in X.shape], "indices": [int(i) for i in X.indices], "indptr": [int(i) for i in X.indptr],
             "data": [_fl(x) for x in X.data], "dense": [[_fl(x) for x in r] for r in X.toarray()]}, X
 
@@ -442,10 +554,15 @@ def _blocks_of(rp, cp, bs):
 def _perminv(case, perm):
     mo = _mo()
     M = _to_scipy(case["m"])
+    snap = _snapshot(M)
+    args = [np.array(perm[0], dtype=np.int32), np.array(perm[1], dtype=np.int32), np.array(perm[2], dtype=np.int32)]
     try:
-        X = mo.invert_permuted_block_diag_matrix(M, np.array(perm[0], dtype=np.int32), np.array(perm[1], dtype=np.int32), np.array(perm[2], dtype=np.int32))
+        X = mo.invert_permuted_block_diag_matrix(M, *args)
     except Exception as e:
         return err_kind(e), None
+    finally:
+        if not _same(M, snap) or any(not np.array_equal(a, np.array(p, dtype=np.int32)) for a, p in zip(args, perm)):
+            _flags.append("invert_permuted_block_diag_matrix modified its input")
     return {"dense": [[_fl(x) for x in r] for r in X.toarray()]}, X
 
 
@@ -460,8 +577,25 @@ def _real_run(case):
     raw = {}
     with warnings.catch_warnings():
         warnings.simplefilter("ignore")
+        del _flags[:]
         if case["kind"] == "nonsquare":
             return {"perm": _perm(case)[0]}, raw
+        if case["kind"] == "bdi":
+            try:
+                i, j = _mo().block_diag_index(np.array(case["bm"], dtype=int), np.array(case["bn"], dtype=int))
+                return {"bdi": {"i": [int(x) for x in i], "j": [int(x) for x in j]}}, raw
+            except Exception as e:
+                return {"bdi": err_kind(e)}, raw
+        if case["kind"] == "options":
+            A = _to_scipy(case["bd"]).asformat(case["as_format"])
+            try:
+                X = _mo().invert_diagonal_blocks(A, np.array(case["sizes_arg"], dtype=int), method=case["method"])
+                raw["opt"] = X
+                return {"opt": {"fmt": X.format, "shape": [int(v) for v in X.shape], "indices": [int(i) for i in X.indices],
+                                "indptr": [int(i) for i in X.indptr], "data": [_fl(x) for x in X.data],
+                                "dense": [[_fl(x) for x in r] for r in X.toarray()]}}, raw
+            except Exception as e:
+                return {"opt": err_kind(e)}, raw
         out = {}
         for method in ("python", "numba"):
             out[method], raw[method] = _blockinv(case, method)
@@ -474,6 +608,7 @@ def _real_run(case):
             out["perminv_found"], raw["found"] = _perminv(case, raw["perm"])
         else:
             out["perminv_found"], raw["found"] = {"err": "no-permutation"}, None
+        raw["flags"] = list(_flags)
     return out, raw
 
 
@@ -625,6 +760,11 @@ def _mat_fields(m):
 def model_ops(case):
     if case["kind"] == "nonsquare":
         return [dict(op="perm", **_mat_fields(case["m"]))]
+    if case["kind"] == "bdi":
+        return [dict(op="bdi", m=case["bm"], n=case["bn"])]
+    if case["kind"] == "options":
+        return [dict(op="invert_opt", sizes=case["sizes_arg"], method=case["method"], fmt_ok=case["as_format"] in ("csr", "csc"),
+                     **_mat_fields(case["bd"]))]
     g = _given_perm(case)
     ops = [dict(op="invert", sizes=case["sizes_arg"], **_mat_fields(case["bd"])),
            dict(op="perm", **_mat_fields(case["m"])),
@@ -640,9 +780,27 @@ def _sing(o, kind):
     return o
 
 
+def _hyp(o, case):
+    """answers carrying an inverse also carry the decidable hypothesis of the pipeline theorems evaluated on this input; on the
+    streams whose matrices are block diagonal by construction it has to be true (otherwise the theorem would not cover the case)"""
+    if isinstance(o, dict) and "hyp_ok" in o:
+        o = dict(o)
+        ok = o.pop("hyp_ok")
+        if not ok and case["kind"] in ("valid", "dup_entries", "stored_zeros_offblock", "options", "empty"):
+            return {"err": "model-hypothesis-false"}
+    return o
+
+
 def model_decode(outs, case):
     if case["kind"] == "nonsquare":
         return {"perm": outs[0]}
+    if case["kind"] == "bdi":
+        return {"bdi": outs[0]}
+    if case["kind"] == "options":
+        o = _hyp(outs[0], case)
+        n = case["bd"]["shape"][0]
+        return {"opt": dict(o, fmt="csr", shape=[n, n]) if "err" not in o else _sing(o, "LinAlgError" if case["method"] == "python" else "ValueError")}
+    outs = [_hyp(o, case) for o in outs]
     inv, perm, pinv = outs[:3]
     given = outs[3] if len(outs) > 3 else None
     if "blocks" in perm:
@@ -720,6 +878,35 @@ def _real_oracle(case, out, raw):
     outside the diagonal blocks and the blocks are the connected components of the pattern; the permuted inverter (with the computed and with the generator's permutation) returns the inverse."""
     if case["kind"] in ("nonsquare", "singular"):
         return None  # the property speaks about nonsingular square input; error kinds are compared with the model
+    if case["kind"] == "bdi":
+        # independent reading of the two-argument block_diag_index: all positions of the full m_k x n_k blocks, column by column
+        ei, ej, ro, co = [], [], 0, 0
+        for mk, nk in zip(case["bm"], case["bn"]):
+            for c in range(nk):
+                ei += list(range(ro, ro + mk))
+                ej += [co + c] * mk
+            ro, co = ro + mk, co + nk
+        got = out["bdi"]
+        if "err" in got:
+            return {"what": f"block_diag_index(m={case['bm']}, n={case['bn']}) raised {got['err']}", "key": "bdi-raises" + ("-zero" if 0 in case["bm"] + case["bn"] else "")}
+        if got != {"i": ei, "j": ej}:
+            return {"what": f"block_diag_index(m={case['bm']}, n={case['bn']}) = {got}, expected i={ei}, j={ej}", "key": "bdi-wrong"}
+        return None
+    if case["kind"] == "options":
+        ok_method = case["method"] in (None, "numba", "python")
+        ok_fmt = case["as_format"] in ("csr", "csc")
+        got = out["opt"]
+        if ok_method and ok_fmt:
+            n = case["bd"]["shape"][0]
+            X = raw.get("opt")
+            BD = np.array([[float(x) for x in r] for r in _dense(case["bd"])], dtype=float).reshape(n, n)
+            if X is None or X.shape != (n, n) or not _resid(BD, X.toarray()) <= TOL:
+                return {"what": f"invert_diagonal_blocks(method={case['method']!r}) on a {case['as_format']} matrix: {got.get('err', 'result is not the inverse')}", "key": "options-not-inverse"}
+        elif "err" not in got:
+            return {"what": f"invert_diagonal_blocks(method={case['method']!r}) on a {case['as_format']} matrix returned a result instead of raising", "key": "options-no-error"}
+        return None
+    if raw.get("flags"):
+        return {"what": raw["flags"][0], "key": "side-effect:" + ("modified-input" if "modified" in raw["flags"][0] else "repeat-differs")}
     n = case["bd"]["shape"][0]
     blk = []
     for k, s in enumerate(case["sizes"]):
@@ -796,7 +983,7 @@ def oracle(case):
 
 # ----------------------------------------------------------------------------- bookkeeping
 def nontrivial(case):
-    return case["kind"] == "valid" and len(case["sizes"]) >= 2 and max(case["sizes"]) >= 2
+    return case["kind"] == "valid" and not case.get("corner") and len(case["sizes"]) >= 2 and max(case["sizes"]) >= 2
 
 
 def shrink_candidates(case):
@@ -812,7 +999,7 @@ def shrink_candidates(case):
 
 
 def _shrink_candidates(case):
-    if case["kind"] == "nonsquare" or not case.get("sizes"):
+    if case["kind"] in ("nonsquare", "options", "bdi") or not case.get("sizes"):
         return
     blocks = [[[Fraction(x) for x in r] for r in b] for b in case["blocks"]]
     sizes = case["sizes"]
@@ -865,7 +1052,7 @@ def stats(cases, impl_outs):
     kinds = Counter(c["kind"] for c in cases)
     nblocks = Counter(len(c.get("sizes", [])) for c in cases)
     bsz = Counter(s for c in cases for s in c.get("sizes", []))
-    fm = Counter((c["bd"]["fmt"] if "bd" in c else "-") + "/" + c["m"]["fmt"] for c in cases)
+    fm = Counter((c["bd"]["fmt"] if "bd" in c else "-") + "/" + (c["m"]["fmt"] if "m" in c else "-") for c in cases)
     errs = Counter()
     split = 0
     for c, o in zip(cases, impl_outs):
@@ -895,4 +1082,6 @@ def stats(cases, impl_outs):
             "strata_with_canonical_storage": dict(sorted(strata_canon.items())), "impl_errors": dict(errs), "numba_on_singular": dict(nbs), "storage_variations": dict(var),
             "zero_entries_in_size_vector": sum(1 for c in cases if 0 in c.get("sizes_arg", [])),
             "cases_where_components_are_finer_than_generated_blocks": split,
-            "matrix_dim_max": max((c["m"]["shape"][0] for c in cases), default=0)}
+            "matrix_dim_max": max((c["m"]["shape"][0] for c in cases if "m" in c), default=0),
+            "corner_strata": dict(Counter(c["corner"] for c in cases if c.get("corner"))),
+            "entry_point_strata": dict(Counter(c["sub"] for c in cases if c.get("kind") in ("options", "bdi")))}
